@@ -297,8 +297,8 @@ impl Check for C02 {
     }
     fn generate(&self, g: &GenParams, emit: &mut dyn FnMut(Case)) {
         // (1) all token sequences up to a bound
-        let max_len = if g.tier == Tier::Quick { 4 } else { 5 };
-        let max_len = if g.scale < 0.2 { 3 } else { max_len };
+        let max_len = if g.tier == Tier::Quick { 5 } else { 6 };
+        let max_len = if g.scale < 0.5 { max_len - 1 } else { max_len };
         let total = tokens::count(max_len);
         let mut buf = Vec::new();
         let mut i = g.shard;
